@@ -212,7 +212,9 @@ CLAIMED = {
               "(b1, b2 -> -b1, -b2 gives D(-theta)) for MEM, the approximate variant and Newton with an exact solver. "
               "solve_cholesky (Cholesky-Banachiewicz, forward and back substitution, as coded) is proved exact on every symmetric "
               "4x4 system on which it returns a vector, hence the step the iteration takes is the exact Newton step J x = g whenever "
-              "the factorisation succeeds (that it succeeds, i.e. that J is positive definite, is not proved). "
+              "the factorisation succeeds; it is proved to succeed, and then to solve, on every symmetric positive definite 4x4 matrix "
+              "(completing the squares with the partial factor: each pivot is the value of the quadratic form on an explicit vector); "
+              "that the Jacobian itself is positive definite and not only semidefinite is not proved. "
               "Correspondence as C05; fidelity of Newton / scipy / MEM on "
               "von-Mises mixtures with spread >= 1.5 bins (N in 24,36,72,144), Newton-vs-scipy agreement, rotation by every k "
               "and mirror equivariance of all four variants, finite-difference Jacobian, on the implementation."),
